@@ -680,6 +680,15 @@ class InterpBase:
             rs = [self.class_matches(state, v, c) for c in cls.items]
             if any(r is True for r in rs):
                 return True
+            if isinstance(v, Num) and v.kinds:
+                # a number whose every possible kind is accepted by one of the listed classes
+                table = {"builtin.int": {"int", "bool"}, "builtin.float": {"float"}, "builtin.bool": {"bool"}}
+                acc = set()
+                for c in cls.items:
+                    if isinstance(c, ClassV) and c.ci is None:
+                        acc |= table.get(c.ext, set())
+                if v.kinds <= acc:
+                    return True
             if all(r is False for r in rs):
                 return False
             return None
